@@ -127,15 +127,16 @@ Section FileCache.
       fs_put s1 loc (NSym real)
     end.
 
-  (* store_tile (tile.stored is False) *)
-  Definition fstore (s : fs) (a : addr) (b : bytes) : fs :=
+  (* store_tile (tile.stored is False) at the location loc *)
+  Definition fstore_at (s : fs) (loc : path) (b : bytes) : fs :=
     match link with
-    | LNone => fstore_plain s (floc a) b
+    | LNone => fstore_plain s loc b
     | _ => match mono b with
-           | Some c => fstore_mono s (floc a) b c
-           | None => fstore_plain s (floc a) b
+           | Some c => fstore_mono s loc b c
+           | None => fstore_plain s loc b
            end
     end.
+  Definition fstore (s : fs) (a : addr) (b : bytes) : fs := fstore_at s (floc a) b.
 
   (* load_tile: if os.path.exists(location): tile.source = ImageSource(location) (opened when read) *)
   Definition fload (s : fs) (a : addr) : option bytes := fs_read s (floc a).
@@ -155,4 +156,71 @@ Section FileCache.
     | [] => (s, [])
     | o :: r => let (s', x) := file_step s o in let (s'', xs) := file_run s' r in (s'', x :: xs)
     end.
+
+  (* ---------------------------------------------------------------- calls through one re-used Tile object *)
+  (* The Tile object keeps: the location computed by the first call that needs it (tile.location, whatever
+     dimensions later calls pass), the source, and the stored flag set by tile_buffer. *)
+  Record tile := mkTile { t_coord : Z * Z * Z; t_loc : option path; t_src : option bytes; t_stored : bool }.
+
+  Definition new_tile (x y z : Z) : tile := mkTile (x, y, z) None None false.
+
+  (* FileCache.tile_location -> tile_location_<layout>: if tile.location is None: compute and keep it *)
+  Definition t_location (t : tile) (d : dims) : tile * path :=
+    match t_loc t with
+    | Some p => (t, p)
+    | None => let '(x, y, z) := t_coord t in
+              let p := floc (mkAddr x y z d) in
+              (mkTile (t_coord t) (Some p) (t_src t) (t_stored t), p)
+    end.
+
+  Inductive tcall :=
+  | TLoad (d : dims)                 (* cache.load_tile(t, dimensions=d) *)
+  | TCached (d : dims)               (* cache.is_cached(t, dimensions=d) *)
+  | TStore (d : dims) (b : bytes)    (* t.source = <image b>; cache.store_tile(t, dimensions=d) *)
+  | TRemove (d : dims).              (* cache.remove_tile(t, dimensions=d) *)
+
+  (* state, tile object, return value (None for calls that return None) *)
+  Definition tcall_step (s : fs) (t : tile) (c : tcall) : fs * tile * option bool :=
+    match c with
+    | TLoad d =>
+      match t_src t with
+      | Some _ => (s, t, Some true)                                   (* if not tile.is_missing(): return True *)
+      | None => let (t1, p) := t_location t d in
+                match fs_read s p with
+                | Some b => (s, mkTile (t_coord t1) (t_loc t1) (Some b) (t_stored t1), Some true)
+                | None => (s, t1, Some false)
+                end
+      end
+    | TCached d =>
+      match t_src t with
+      | Some _ => (s, t, Some true)
+      | None => let (t1, p) := t_location t d in (s, t1, Some (fs_exists s p))
+      end
+    | TStore d b =>
+      let t0 := mkTile (t_coord t) (t_loc t) (Some b) (t_stored t) in
+      if t_stored t0 then (s, t0, None)                               (* if tile.stored: return *)
+      else let (t1, p) := t_location t0 d in
+           (* tile.stored is set by tile_buffer, i.e. inside _store: a single-colour tile whose colour file exists
+              already is only linked and keeps stored = False *)
+           let wrote := match link, mono b with
+                        | LNone, _ => true
+                        | _, None => true
+                        | _, Some c => negb (fs_exists s (sc_path ext c))
+                        end in
+           (fstore_at s p b, mkTile (t_coord t1) (t_loc t1) (t_src t1) wrote, None)
+    | TRemove d =>
+      let (t1, p) := t_location t d in (fs_del s p, t1, None)
+    end.
+
+  (* what the harness observes after every call: return value, tile.location, content of tile.source, tile.stored *)
+  Definition tobs := (option bool * option path * option bytes * bool)%type.
+
+  Fixpoint tcall_exec (s : fs) (t : tile) (cs : list tcall) : fs * list tobs :=
+    match cs with
+    | [] => (s, [])
+    | c :: r => let '(s1, t1, ret) := tcall_step s t c in
+                let (s2, obs) := tcall_exec s1 t1 r in
+                (s2, (ret, t_loc t1, t_src t1, t_stored t1) :: obs)
+    end.
+  Definition tcall_run (s : fs) (t : tile) (cs : list tcall) : list tobs := snd (tcall_exec s t cs).
 End FileCache.
